@@ -65,7 +65,18 @@ def conds_c03(tier):
     if tier == "thorough":
         cs += [xhrun.Cond("harness_cache", "c03_step", {"XH_SHAPE": json.dumps(s.to_json()), "XH_ORDER": "fifo"},
                           timeout=240, label=f"c03_step_{s.name}_fifo") for s in shapes_for(tier)]
+    cs += ordering_lemma()
     return cs
+
+
+def ordering_lemma():
+    """C03 / C08 quantify over schedules but run on the sequential stand-in: what a schedule can change is the ORDER of store
+    operations, so the physical-plan ordering conditions of C09 for the shapes with dependent sources are part of these
+    checks too (a lost ordering edge = some schedule reads a dependent source before its generator ran)."""
+    import shapes
+
+    return [xhrun.Cond("harness_cache", "c09_order", {"XH_SHAPE": json.dumps(shapes.BY_NAME[nm].to_json())}, timeout=300,
+                       label=f"ordering_{nm}") for nm in ("dep_source", "dep_source_2pred", "dep_source_chain")]
 
 
 def conds_c09(tier):
@@ -99,6 +110,7 @@ def conds_c08(tier):
                                      {"XH_SHAPE": json.dumps(s.to_json()), "XH_CUT": k, "XH_CUT_KIND": kind},
                                      timeout=400, label=f"c08_cut_{nm}_k{k}_{kind}",
                                      twin=(k % 4 == 0)))
+    cs += ordering_lemma()
     return cs, info
 
 
